@@ -1,10 +1,70 @@
 import KawinV.Proto
-/-! driver verbs for C20 (stub: no verbs yet) -/
+import KawinV.Model.SaveLoad
+import KawinV.Gen.C20Tables
+/-! driver verbs for the save/load model (Float instance), run with the GENERATED tables -/
 namespace KawinV.Drv.C20
-open KawinV.Proto
+open KawinV.Proto KawinV.SaveLoad KawinV.Gen.C20
+
+/-- value:  `N`  |  `A <ndim> d1 … <len> x1 …` -/
+def val : P (Val Float) := do
+  let t ← tok
+  if t == "N" then pure .none
+  else if t == "A" then do
+    let sh ← lst nat; let d ← flts; pure (.arr sh d)
+  else failure
+
+def slots : P (List (String × Val Float)) := lst (do let n ← tok; let v ← val; pure (n, v))
+
+def stateOf (l : List (String × Val Float)) : State Float :=
+  fun x => match l.find? (fun e => e.1 == x) with | some e => e.2 | none => .none
+
+def showVal : Val Float → String
+  | .none => "N"
+  | .arr sh d => s!"A {" ".intercalate (toString sh.length :: sh.map toString)} {flist d}"
+
+def specOf (kind : String) (phases : List String) : Spec :=
+  if kind == "P" then
+    { writes := expand precipGlobalW precipPhaseW phases, reads := expand precipGlobalR precipPhaseR phases,
+      resets := expandSlots precipGlobalReset precipPhaseReset phases }
+  else { writes := diffW, reads := diffR, resets := diffReset }
+
+/-- sl.rt  kind(P|D)  phases  state  fresh-state
+    → `K <n> keys…` (keys of the saved file) then `E objarray` | `E keyerror <k>` |
+      `R <n> (slot value)…` for every slot named in the fresh state, after load -/
+def rt : P String := do
+  let kind ← tok
+  let phases ← lst tok
+  let s ← slots
+  let s0 ← slots
+  let sp := specOf kind phases
+  let file := save sp (stateOf s)
+  let keys := (Dict.keys file).eraseDups
+  let ks := " ".intercalate (toString keys.length :: keys)
+  match load sp file (stateOf s0) with
+  | .error .objectArray => pure s!"K {ks} E objarray"
+  | .error (.keyError k) => pure s!"K {ks} E keyerror {k}"
+  | .ok s' =>
+    let names := s0.map (·.1)
+    let body := names.map (fun n => s!"{n} {showVal (s' n)}")
+    pure s!"K {ks} R {" ".intercalate (toString names.length :: body)}"
+
+def showNest : (k : Nat) → Nest Float k → String
+  | 0, x => fout x
+  | k+1, xs => "[ " ++ " ".intercalate (List.map (showNest k) xs) ++ " ]"
+
+/-- json.rt  shape  data  → shape and data of `np.array(a.tolist())`, then the nested list itself -/
+def jsonrt : P String := do
+  let sh ← lst nat
+  let d ← flts
+  let j := tolist sh d
+  let sh' := shapeOf sh.length j
+  let d' := flatten sh.length j
+  pure s!"{" ".intercalate (toString sh'.length :: sh'.map toString)} {flist d'} {showNest sh.length j}"
 
 def handle (verb : String) : Option (P String) :=
   match verb with
+  | "sl.rt" => some rt
+  | "json.rt" => some jsonrt
   | _ => none
 
 end KawinV.Drv.C20
